@@ -58,7 +58,7 @@ def run_tlc(module, constants, workdir, invariants=(), properties=(), action_con
     """constants: dict name -> TLA+ expression text (defined in the MC module as operators)."""
     os.makedirs(workdir, exist_ok=True)
     mc = "MC_" + module
-    lines = ["---- MODULE %s ----" % mc, "EXTENDS %s, TLC" % module]
+    lines = ["---- MODULE %s ----" % mc, "EXTENDS %s, TLC, Randomization" % module]
     cfg = []
     if spec:
         cfg.append("SPECIFICATION %s" % spec)
